@@ -212,6 +212,92 @@ pub proof fn lemma_c05_slope_ratios(s01: real, s12: real)
     assert(s01 * s01 >= 0real && s12 * s12 >= 0real) by(nonlinear_arith);
     if s01 == 0real { assert(s01 * s12 == 0real) by(nonlinear_arith) requires s01 == 0real; }
     if s12 == 0real { assert(s01 * s12 == 0real) by(nonlinear_arith) requires s12 == 0real; }
+
+// ---- C05 composed: the Fritsch-Carlson lemma (proved in u_shape under the other Z3 configuration) instantiated with the
+// ---- contract of `segment` -- closes the gap between "the lemma about a cubic with Hermite data" and "the Segment<Poly3> returned"
+//@same-spec file=u_shape.rs name=ratio_in
+//@assume-spec file=u_shape.rs name=cub
+//@assume-spec file=u_shape.rs name=dcub
+//@assume-lemma file=u_shape.rs name=lemma_hermite_monotone
+/// every segment returned by `segment(f0, k0, f1, k1)` whose prescribed end slopes have ratios in [0,3] to the secant (and vanish with it)
+/// is monotone between its knots: at every real point of the interval the slope never opposes the secant and the value stays between
+/// the two ordinates
+pub proof fn lemma_c05_segment_monotone(f0: f64, k0: Knot, f1: f64, k1: Knot, r: Segment<Poly3>, t: real)
+    requires
+        seg_post(f0, k0, f1, k1, r), rv(k0.x) != rv(k1.x),
+        ({ let s = sec(k0, k1);
+           ratio_in(rv(f0), s, 0real, 3real) && ratio_in(rv(f1), s, 0real, 3real) && (s == 0real ==> rv(f0) == 0real && rv(f1) == 0real) }),
+        0real <= t <= 1real,
+    ensures
+        ({ let x = rv(k0.x) + t * (rv(k1.x) - rv(k0.x)); let s = sec(k0, k1);
+           dcubic(r.poly.0@, x) * s >= 0real && (cubic(r.poly.0@, x) - rv(k0.y)) * (rv(k1.y) - cubic(r.poly.0@, x)) >= 0real }),
+{
+    let c = r.poly.0@;
+    let x = rv(k0.x) + t * (rv(k1.x) - rv(k0.x));
+    assert(cub(rv(c[0]), rv(c[1]), rv(c[2]), rv(c[3]), rv(k0.x)) == cubic(c, rv(k0.x)));
+    assert(cub(rv(c[0]), rv(c[1]), rv(c[2]), rv(c[3]), rv(k1.x)) == cubic(c, rv(k1.x)));
+    assert(cub(rv(c[0]), rv(c[1]), rv(c[2]), rv(c[3]), x) == cubic(c, x));
+    assert(dcub(rv(c[1]), rv(c[2]), rv(c[3]), rv(k0.x)) == dcubic(c, rv(k0.x)));
+    assert(dcub(rv(c[1]), rv(c[2]), rv(c[3]), rv(k1.x)) == dcubic(c, rv(k1.x)));
+    assert(dcub(rv(c[1]), rv(c[2]), rv(c[3]), x) == dcubic(c, x));
+    lemma_hermite_monotone(rv(c[0]), rv(c[1]), rv(c[2]), rv(c[3]), rv(k0.x), rv(k0.y), rv(k1.x), rv(k1.y), rv(f0), rv(f1), t);
+}
+
+/// C05 for an interior piece of `constrained_spline`: knots k0 < k1 < k2 < k3, slopes at k1 and k2 from `f_dx` (Kruger), piece from `segment`
+pub proof fn lemma_c05_interior_piece_monotone(k0: Knot, k1: Knot, k2: Knot, k3: Knot, f1: f64, f2: f64, r: Segment<Poly3>, t: real)
+    requires
+        rv(k1.x) != rv(k2.x),
+        rv(f1) == kruger(sec(k0, k1), sec(k1, k2)),
+        rv(f2) == kruger(sec(k1, k2), sec(k2, k3)),
+        seg_post(f1, k1, f2, k2, r),
+        0real <= t <= 1real,
+    ensures
+        ({ let x = rv(k1.x) + t * (rv(k2.x) - rv(k1.x)); let s = sec(k1, k2);
+           dcubic(r.poly.0@, x) * s >= 0real && (cubic(r.poly.0@, x) - rv(k1.y)) * (rv(k2.y) - cubic(r.poly.0@, x)) >= 0real }),
+{
+    lemma_c05_slope_ratios(sec(k1, k2), sec(k0, k1));   // gives ratio_in(kruger(s12, s01), s12, 0, 3) ... (Kruger is symmetric, shown below)
+    lemma_c05_slope_ratios(sec(k0, k1), sec(k1, k2));
+    lemma_c05_slope_ratios(sec(k1, k2), sec(k2, k3));
+    lemma_c05_segment_monotone(f1, k1, f2, k2, r, t);
+}
+
+/// C05 for the first piece: knots k0 < k1 < k2, slope at k1 from `f_dx`, slope at k0 = 3/2 secant - 1/2 slope at k1
+pub proof fn lemma_c05_first_piece_monotone(k0: Knot, k1: Knot, k2: Knot, f0: f64, f1: f64, r: Segment<Poly3>, t: real)
+    requires
+        rv(k0.x) != rv(k1.x),
+        rv(f1) == kruger(sec(k0, k1), sec(k1, k2)),
+        rv(f0) == (3real / 2real) * sec(k0, k1) - (1real / 2real) * rv(f1),
+        seg_post(f0, k0, f1, k1, r),
+        0real <= t <= 1real,
+    ensures
+        ({ let x = rv(k0.x) + t * (rv(k1.x) - rv(k0.x)); let s = sec(k0, k1);
+           dcubic(r.poly.0@, x) * s >= 0real && (cubic(r.poly.0@, x) - rv(k0.y)) * (rv(k1.y) - cubic(r.poly.0@, x)) >= 0real }),
+{
+    lemma_c05_slope_ratios(sec(k0, k1), sec(k1, k2));
+    lemma_c05_segment_monotone(f0, k0, f1, k1, r, t);
+}
+
+/// C05 for the last piece: knots k0 < k1 < k2, slope at k1 from `f_dx`, slope at k2 = 3/2 secant - 1/2 slope at k1
+pub proof fn lemma_c05_last_piece_monotone(k0: Knot, k1: Knot, k2: Knot, f1: f64, f2: f64, r: Segment<Poly3>, t: real)
+    requires
+        rv(k1.x) != rv(k2.x),
+        rv(f1) == kruger(sec(k0, k1), sec(k1, k2)),
+        rv(f2) == (3real / 2real) * sec(k1, k2) - (1real / 2real) * rv(f1),
+        seg_post(f1, k1, f2, k2, r),
+        0real <= t <= 1real,
+    ensures
+        ({ let x = rv(k1.x) + t * (rv(k2.x) - rv(k1.x)); let s = sec(k1, k2);
+           dcubic(r.poly.0@, x) * s >= 0real && (cubic(r.poly.0@, x) - rv(k1.y)) * (rv(k2.y) - cubic(r.poly.0@, x)) >= 0real }),
+{
+    // Kruger is symmetric in its arguments
+    assert(kruger(sec(k0, k1), sec(k1, k2)) == kruger(sec(k1, k2), sec(k0, k1))) by {
+        let (a, b) = (sec(k0, k1), sec(k1, k2));
+        assert(a * b == b * a) by(nonlinear_arith);
+        assert(2real * a * b == 2real * b * a) by(nonlinear_arith);
+    }
+    lemma_c05_slope_ratios(sec(k1, k2), sec(k0, k1));
+    lemma_c05_segment_monotone(f1, k1, f2, k2, r, t);
+}
 }
 
 } // verus!
